@@ -1,8 +1,194 @@
 import Lean.Data.Json
-/- stub: the C16 driver is not built yet -/
-namespace Glom.C16.Driver
-open Lean
+import Glom.Spec.C16
+import Glom.Model.C16Env
+/-
+  C16 driver.
 
-def run (_j : Json) : Except String Json := .error "property C16: driver not implemented yet"
+  case: {"spec":GSpec, "runs":[[V…]…], "impl":[Obs…]}      (one spec object, evaluated on each run in turn)
+  V:     null | {"b":…} | {"i":…} | {"s":…} | {"fbits":"<uint64>"} | {"sent":"SKIP"|"STOP"} | {"obj":n}
+         | {"id":n}  (= id(container n)) | {"l":[V…]} | {"t":[V…]} | {"d":[[V,V]…]}
+  Fn:    {"fn":name, …args}
+  GSpec: {"k":"dict","id":n,"kid":m,"key":Fn,"sub":GSpec} | {"k":"list","id":n,"f":Fn}
+         | {"k":"agg","oid":n,"a":{"agg":name,"f":Fn?}} | {"k":"fn","f":Fn}
+         | {"k":"limit","oid":n,"n":k,"sub":GSpec} | {"k":"nested","g":GSpec}
+  Obs:   {"ok":V} | {"err":cls}
+-/
+namespace Glom.C16.Driver
+open Lean Glom.C16
+
+partial def vOfJson (j : Json) : Except String V :=
+  match j with
+  | .null => .ok .none
+  | .obj _ =>
+    if let .ok b := j.getObjValAs? Bool "b" then .ok (.bool b)
+    else if let .ok i := j.getObjValAs? Int "i" then .ok (.int i)
+    else if let .ok s := j.getObjValAs? String "s" then .ok (.str s)
+    else if let .ok s := j.getObjValAs? String "fbits" then
+      match s.toNat? with
+      | some n => .ok (.float n.toUInt64)
+      | none => .error s!"bad fbits {s}"
+    else if let .ok s := j.getObjValAs? String "sent" then
+      if s == "SKIP" then .ok .skip else if s == "STOP" then .ok .stop else .error s!"bad sentinel {s}"
+    else if let .ok n := j.getObjValAs? Nat "obj" then .ok (.obj n)
+    else if let .ok n := j.getObjValAs? Nat "id" then .ok (idKey n)
+    else if let .ok (.arr a) := j.getObjVal? "l" then do return .list (← a.toList.mapM vOfJson)
+    else if let .ok (.arr a) := j.getObjVal? "t" then do return .tuple (← a.toList.mapM vOfJson)
+    else if let .ok (.arr a) := j.getObjVal? "d" then do
+      return .dict (← a.toList.mapM (fun e => match e with
+        | .arr #[k, v] => do return (← vOfJson k, ← vOfJson v)
+        | _ => throw s!"bad pair {e.compress}"))
+    else .error s!"bad V {j.compress}"
+  | _ => .error s!"bad V {j.compress}"
+
+partial def vToJson : V → Json
+  | .none => .null
+  | .bool b => Json.mkObj [("b", b)]
+  | .int i =>
+    if i ≥ idBase then Json.mkObj [("id", toJson (i - idBase))] else Json.mkObj [("i", toJson i)]
+  | .str s => Json.mkObj [("s", s)]
+  | .float b => Json.mkObj [("fbits", toString b.toNat)]
+  | .skip => Json.mkObj [("sent", "SKIP")]
+  | .stop => Json.mkObj [("sent", "STOP")]
+  | .obj n => Json.mkObj [("obj", n)]
+  | .list xs => Json.mkObj [("l", Json.arr (xs.map vToJson).toArray)]
+  | .tuple xs => Json.mkObj [("t", Json.arr (xs.map vToJson).toArray)]
+  | .dict es => Json.mkObj [("d", Json.arr (es.map (fun e => Json.arr #[vToJson e.1, vToJson e.2])).toArray)]
+
+def fnOfJson (j : Json) : Except String Fn := do
+  let name ← j.getObjValAs? String "fn"
+  let nat (k : String) : Except String Nat := j.getObjValAs? Nat k
+  let val (k : String) : Except String V := do vOfJson (← j.getObjVal? k)
+  match name with
+  | "ident" => return .ident
+  | "mod" => return .mod (← nat "n")
+  | "item" => return .item (← val "k")
+  | "skip_odd" => return .skipOdd
+  | "skip_if" => return .skipIf (← val "v")
+  | "key_skip" => return .keySkip (← nat "n")
+  | "stop_at" => return .stopAt (← j.getObjValAs? Int "n")
+  | "id_of" => return .idOf (← nat "n")
+  | "id_if" => return .idIf (← val "v") (← nat "n")
+  | "obj_if" => return .objIf (← val "v") (← nat "n")
+  | "len" => return .len
+  | "const" => return .const (← val "v")
+  | n => throw s!"bad fn {n}"
+
+def subFn (j : Json) : Except String Fn :=
+  match j.getObjVal? "f" with
+  | .ok f => fnOfJson f
+  | .error _ => .ok .ident
+
+def aggOfJson (j : Json) : Except String Agg := do
+  let name ← j.getObjValAs? String "agg"
+  if name == "first" then return Agg.first
+  else if name == "max" then return Agg.max
+  else if name == "min" then return Agg.min
+  else if name == "avg" then return Agg.avg
+  else if name == "count" then return Agg.count
+  else if name == "sum" then return Agg.sum (← subFn j)
+  else if name == "flatten" then return Agg.flatten (← subFn j)
+  else if name == "merge" then return Agg.merge (← subFn j)
+  else throw s!"bad agg {name}"
+
+partial def specOfJson (j : Json) : Except String GSpec := do
+  let k ← j.getObjValAs? String "k"
+  if k == "dict" then
+    let id ← j.getObjValAs? Nat "id"
+    let kid ← j.getObjValAs? Nat "kid"
+    let key ← fnOfJson (← j.getObjVal? "key")
+    let sub ← specOfJson (← j.getObjVal? "sub")
+    return GSpec.dict id kid key sub
+  else if k == "list" then
+    let id ← j.getObjValAs? Nat "id"
+    let f ← fnOfJson (← j.getObjVal? "f")
+    return GSpec.list id f
+  else if k == "agg" then
+    let oid ← j.getObjValAs? Nat "oid"
+    let a ← aggOfJson (← j.getObjVal? "a")
+    return GSpec.agg oid a
+  else if k == "fn" then
+    let f ← fnOfJson (← j.getObjVal? "f")
+    return GSpec.fn f
+  else if k == "limit" then
+    let oid ← j.getObjValAs? Nat "oid"
+    let n ← j.getObjValAs? Nat "n"
+    let sub ← specOfJson (← j.getObjVal? "sub")
+    return GSpec.limit oid n sub
+  else if k == "nested" then
+    let g ← specOfJson (← j.getObjVal? "g")
+    return GSpec.nested g
+  else throw s!"bad spec kind {k}"
+
+def obsOfJson (j : Json) : Except String Obs := do
+  if let .ok v := j.getObjVal? "ok" then return .ok (← vOfJson v)
+  else if let .ok c := j.getObjValAs? String "err" then return .err c
+  else throw s!"bad obs {j.compress}"
+
+def obsToJson : Obs → Json
+  | .ok v => Json.mkObj [("ok", vToJson v)]
+  | .err c => Json.mkObj [("err", c)]
+
+def arr (j : Json) : Except String (List Json) :=
+  match j with
+  | .arr a => .ok a.toList
+  | _ => .error s!"expected array, got {j.compress}"
+
+def specTag : GSpec → String
+  | .dict _ _ _ sub => "{" ++ specTag sub ++ "}"
+  | .list .. => "[f]"
+  | .agg _ .first => "First" | .agg _ .max => "Max" | .agg _ .min => "Min" | .agg _ .avg => "Avg"
+  | .agg _ (.sum _) => "Sum" | .agg _ .count => "Count" | .agg _ (.flatten _) => "Flatten"
+  | .agg _ (.merge _) => "Merge"
+  | .fn _ => "f"
+  | .limit _ _ sub => "Limit(" ++ specTag sub ++ ")"
+  | .nested g => "Group(" ++ specTag g ++ ")"
+
+/-- a SKIP-producing bare function under a key level: the implementation orders such keys by
+    their first *value*; the reference (keys in order of first occurrence) does not cover it -/
+def skipLeafBelow (below : Bool) : GSpec → List V → Bool
+  | .fn f, its => below && its.any (fun x => isSkip (f.val x))
+  | .nested (.fn _), _ => below
+  | .nested (.nested _), _ => below
+  | .dict _ _ _ sub, its => skipLeafBelow true sub its
+  | .limit _ _ sub, its => skipLeafBelow below sub its
+  | _, _ => false
+
+/-- Max / Min over lists or tuples: Python compares them lexicographically, the model's
+    `pyLt` covers ints and strings only -/
+def cmpUnsupported : GSpec → List V → Bool
+  | .agg _ .max, its | .agg _ .min, its => its.any isSeqV
+  | .dict _ _ _ sub, its => cmpUnsupported sub its
+  | .limit _ _ sub, its => cmpUnsupported sub its
+  | .nested g, its => its.any (fun x => cmpUnsupported g ((iterOf x).getD []))
+  | _, _ => false
+
+def run (j : Json) : Except String Json := do
+  let spec ← specOfJson (← j.getObjVal? "spec")
+  let runs ← (← arr (← j.getObjVal? "runs")).mapM (fun r => do (← arr r).mapM vOfJson)
+  let implObs ← (← arr (← j.getObjVal? "impl")).mapM obsOfJson
+  if runs.any (skipLeafBelow false spec) then
+    return Json.mkObj [("skip", true), ("why", "SKIP-producing bare function under a key level")]
+  if runs.any (cmpUnsupported spec) then
+    return Json.mkObj [("skip", true), ("why", "Max/Min over sequences")]
+  let modelObs := runs.map (fun its => observe (groupEval spec its))
+  let agree := modelObs == implObs
+  let holds := checkC16 spec runs implObs
+  let modelHolds := checkC16 spec runs modelObs
+  let wf := runs.all (wfRun spec)
+  let h1 := runs.all (stopFree false spec)
+  let h2 := runs.all (keysApart spec)
+  let shape :=
+    if !h2 then "tree_key_collision"
+    else if runs.any (f9Shape spec) then "first_under_varying_key"
+    else ""
+  let first := match modelObs with
+    | .ok _ :: _ => "ok"
+    | .err c :: _ => s!"err-{c}"
+    | [] => "no-run"
+  return Json.mkObj [("agree", agree), ("holds", holds), ("model_holds", modelHolds),
+    ("facts_wf", genWF), ("wf", wf), ("h1", h1), ("h2", h2), ("known_shape", shape),
+    ("model", Json.arr (modelObs.map obsToJson).toArray),
+    ("expected", Json.arr (runs.map (fun its => vToJson (valOfTop spec its))).toArray),
+    ("branch", s!"{specTag spec}:{first}{if h1 then "" else ":stop"}{if h2 then "" else ":collide"}")]
 
 end Glom.C16.Driver
